@@ -46,5 +46,42 @@ Theorem C18_tiles_sound : forall files logged, oracle_tiles files logged = true 
   exists arrangement, Permutation (nonempty files) arrangement /\ concat arrangement = logged.
 Proof. intros files logged H. unfold oracle_tiles in H. eapply tiles_sound. exact H. Qed.
 
+Require Import FL.Fs.Fs FL.Flw.Model FL.Flw.Run FL.Flw.ReopenFacts.
+(* no rotation, any buffer capacity, ANY history: after an external rename and reopen_output the renamed file holds exactly what was logged
+   before (including what was still buffered), the file at the original path exactly what was logged after; nothing else exists *)
+Theorem C18_reopen_switches c t0 off ops1 ops2 moved :
+  norot c -> Forall wf_op ops1 -> Forall wf_op ops2 -> moved <> logname c ->
+  let x := fst (run (sys0 t0 off)
+                    (OStart c :: ops1 ++ [OExtRename (logname c) moved; OReopen] ++ ops2 ++ [OStop])) in
+  dir_is (wfs (s_w x))
+         (if has_write ops1 then [(moved, written ops1); (logname c, written ops2)]
+          else if has_write ops2 then [(logname c, written ops2)] else [])
+  /\ werrs (s_w x) = [].
+Proof. exact (reopen_switches c t0 off ops1 ops2 moved). Qed.
+
+(* reset to another log file: the old file holds exactly the records logged before the reset, the new one those after it *)
+Theorem C18_reset_switches c c2 t0 off ops1 ops2 :
+  norot c -> norot c2 -> logname c2 <> logname c -> Forall wf_op ops1 -> Forall wf_op ops2 ->
+  let x := fst (run (sys0 t0 off) (OStart c :: ops1 ++ [OReset c2] ++ ops2 ++ [OStop])) in
+  dir_is (wfs (s_w x))
+         ((if has_write ops1 then [(logname c, written ops1)] else [])
+          ++ (if has_write ops2 then [(logname c2, written ops2)] else []))
+  /\ werrs (s_w x) = [].
+Proof. exact (reset_switches c c2 t0 off ops1 ops2). Qed.
+
+(* any alternation of writes / flushes with renames+reopen and resets to fresh names: the files, in switch order, tile the logged stream *)
+Theorem C18_switches_tile c t0 off items :
+  norot c -> static_ok items -> NoDup (logname c :: new_names items) -> no_remove items ->
+  let x := fst (run (sys0 t0 off) (OStart c :: flat c items ++ [OStop])) in
+  exists files, dir_is (wfs (s_w x)) files /\ NoDup (List.map fst files)
+    /\ stream files = written (flat c items) /\ werrs (s_w x) = [].
+Proof. exact (switches_tile_static c t0 off items). Qed.
+
 Check C18_tiles_sound.
 Print Assumptions C18_tiles_sound.
+Check C18_reopen_switches.
+Print Assumptions C18_reopen_switches.
+Check C18_reset_switches.
+Print Assumptions C18_reset_switches.
+Check C18_switches_tile.
+Print Assumptions C18_switches_tile.
